@@ -419,7 +419,8 @@ impl WorldB {
                     _ => head.wrapping_add(2 + (op.c / 12) % 600),
                 };
                 let wrong_protocol = op.d % 8 == 7;
-                let protocol = if wrong_protocol { self.tokens[tid].token.protocol_id ^ 0x10 } else { self.tokens[tid].token.protocol_id };
+                // (a protocol id that differs in one bit of any of its eight bytes)
+                let protocol = if wrong_protocol { self.tokens[tid].token.protocol_id ^ (0x10u64 << (8 * ((op.d / 512) % 8))) } else { self.tokens[tid].token.protocol_id };
                 self.payload_counter += 1;
                 let body: Vec<u8> = {
                     let mut v = vec![0xADu8, tid as u8, 0xFE];
